@@ -25,6 +25,11 @@ func verif_prev[T any](x T) T { return x }
 func verif_forall(f any) bool
 func verif_exists(f any) bool
 func verif_fresh(p any) bool
+func verif_same(a, b any) bool
+func verif_raw(a any) int
+func verif_calls(name string) int
+func verif_lastarg(name string, i int) int
+func verif_lastres(name string) int
 `
 
 type clauseInfo struct {
@@ -52,6 +57,18 @@ type Engine struct {
 	warnings  []string
 	synCount  int
 	tmpFiles  []string
+}
+
+// isRigid: the pure function does not depend on the heap (declared with //@ rigid).
+func (e *Engine) isRigid(key string) bool {
+	for _, cf := range e.cfiles {
+		for _, r := range cf.Rigid {
+			if r == key || r == shortCallee(key) {
+				return true
+			}
+		}
+	}
+	return false
 }
 
 func (e *Engine) warnf(f string, a ...any) {
@@ -287,12 +304,27 @@ func (e *Engine) prepareRepoPackage(rel string, overlay map[string][]byte) error
 		}
 		for i, m := range c.Modifies {
 			inner := m
+			if m == "everything" {
+				continue
+			}
 			if strings.HasPrefix(m, "all(") {
 				inner = m[4 : len(m)-1]
 			}
 			name := e.newSynName("mod")
 			fmt.Fprintf(&sf.body, "//line %s:%d\nfunc %s(%s) { _ = %s }\n", c.File, c.Line, name, pre, inner)
 			e.synDecls[fmt.Sprintf("%s#mod%d", c.CalleeKey, i)] = &clauseInfo{params: preNames, decl: &ast.FuncDecl{Name: ast.NewIdent(name)}}
+		}
+		for i, m := range c.Shared {
+			inner := m
+			if m == "everything" {
+				continue
+			}
+			if strings.HasPrefix(m, "all(") {
+				inner = m[4 : len(m)-1]
+			}
+			name := e.newSynName("mod")
+			fmt.Fprintf(&sf.body, "//line %s:%d\nfunc %s(%s) { _ = %s }\n", c.File, c.Line, name, pre, inner)
+			e.synDecls[fmt.Sprintf("%s#shared%d", c.CalleeKey, i)] = &clauseInfo{params: preNames, decl: &ast.FuncDecl{Name: ast.NewIdent(name)}}
 		}
 		if prev, dup := e.contracts[c.CalleeKey]; dup {
 			return fmt.Errorf("%s:%d: duplicate contract for %s (also %s:%d)", c.File, c.Line, c.CalleeKey, prev.File, prev.Line)
@@ -637,7 +669,7 @@ func (e *Engine) load(rels []string, externFiles []string, extraPkgs []string) e
 		ci.decl, ci.info, ci.pkg = d.decl, d.info, d.pkg
 	}
 	for k, ci := range e.synDecls {
-		if strings.Contains(k, "#mod") {
+		if strings.Contains(k, "#mod") || strings.Contains(k, "#shared") {
 			d, ok := e.synDecls[ci.decl.Name.Name]
 			if !ok {
 				return fmt.Errorf("modifies clause %s not type-checked", k)
